@@ -735,8 +735,14 @@ fn run_agg(
                     "partial_spm_final" => {
                         // the partial stage keeps the order of the ordering columns: merge its partitions on them
                         let spec: OrdSpec = c.order.clone();
+                        // (only when the partial stage really reports that order: with GROUPING SETS it does not)
                         let mid: Arc<dyn ExecutionPlan> = match lex(&pschema, &spec) {
-                            Some(o) if c.nparts > 1 => Arc::new(SortPreservingMergeExec::new(o, partial)),
+                            Some(o)
+                                if c.nparts > 1
+                                    && partial.properties().equivalence_properties().ordering_satisfy(o.clone()).unwrap_or(false) =>
+                            {
+                                Arc::new(SortPreservingMergeExec::new(o, partial))
+                            }
                             _ => Arc::new(CoalescePartitionsExec::new(partial)),
                         };
                         let a = mk(AggregateMode::Final, fin_gb, mid)?;
